@@ -190,7 +190,7 @@ def seeded_for(prop):
             continue
         with open(meta) as f:
             m = json.load(f)
-        if m.get("property") == prop:
+        if prop in m.get("checked_by", [m.get("property")]):
             out.append((name, patch, m))
     return out
 
